@@ -460,4 +460,496 @@ theorem vreach_rel (cat : Catalog) (ops : List VOp) :
     VRel (vfinal D0 V0 (VState.init cat) ops) (Spec.vfinal (Spec.State.init cat) ops) :=
   (vrunFrom_ok ops _ _ (vinit_rel cat)).2
 
+/-! ### finished transactions stay what they are -/
+
+/-- every transaction that is finished (committed or aborted) in `σ` has the same status in `σ'` -/
+def FinishedSame (σ σ' : State) : Prop :=
+  ∀ (u : Nat) (t : Txn), σ.txns[u]? = some t → t.status ≠ Status.active → ∃ t', σ'.txns[u]? = some t' ∧ t'.status = t.status
+
+/-- every transaction of `σ` has the same status in `σ'` -/
+def SameStatus (σ σ' : State) : Prop :=
+  ∀ (u : Nat) (t : Txn), σ.txns[u]? = some t → ∃ t', σ'.txns[u]? = some t' ∧ t'.status = t.status
+
+theorem FinishedSame.refl (σ : State) : FinishedSame σ σ := fun _ t h _ => ⟨t, h, rfl⟩
+
+theorem FinishedSame.trans {a b c : State} (h1 : FinishedSame a b) (h2 : FinishedSame b c) : FinishedSame a c := by
+  intro u t ht hna
+  obtain ⟨t1, g1, g2⟩ := h1 u t ht hna
+  obtain ⟨t2, g3, g4⟩ := h2 u t1 g1 (by rw [g2]; exact hna)
+  exact ⟨t2, g3, by rw [g4, g2]⟩
+
+theorem SameStatus.finished {a b : State} (h : SameStatus a b) : FinishedSame a b := fun u t ht _ => h u t ht
+
+theorem SameStatus.refl (σ : State) : SameStatus σ σ := fun _ t h => ⟨t, h, rfl⟩
+
+theorem SameStatus.trans {a b c : State} (h1 : SameStatus a b) (h2 : SameStatus b c) : SameStatus a c := by
+  intro u t ht
+  obtain ⟨t1, g1, g2⟩ := h1 u t ht
+  obtain ⟨t2, g3, g4⟩ := h2 u t1 g1
+  exact ⟨t2, g3, by rw [g4, g2]⟩
+
+theorem FinishedSame.of_txns {σ σ' : State} (h : σ'.txns = σ.txns) : FinishedSame σ σ' := by
+  intro u t ht _; exact ⟨t, by rw [h]; exact ht, rfl⟩
+
+theorem sameStatus_begin (σ : State) : SameStatus σ (σ.beginTxn D0).1 := by
+  intro u t ht
+  exact ⟨t, getElem?_snoc.2 (Or.inl ht), rfl⟩
+
+/-- changing the status of a transaction that is active (or does not exist) leaves the finished ones alone -/
+theorem finishedSame_setStatus (σ : State) (tid : Nat) (st : Status) (lc : Nat) (cl : List (Nat × List Rid))
+    (hact : ∀ t, σ.txns[tid]? = some t → t.status = Status.active) :
+    FinishedSame σ { σ with txns := setStatus σ.txns tid st, lastCommitted := lc, clog := cl } := by
+  intro u t ht hna
+  have hne : tid ≠ u := by
+    intro e; subst e; exact hna (hact t ht)
+  exact ⟨t, setStatus_get_other ht hne, rfl⟩
+
+theorem finishedSame_abort (σ : State) (tid : Nat) (hact : ∀ t, σ.txns[tid]? = some t → t.status = Status.active) :
+    FinishedSame σ (σ.abortTxn tid) :=
+  finishedSame_setStatus σ tid .aborted σ.lastCommitted σ.clog hact
+
+theorem finishedSame_commit (σ : State) (tid : Nat) (hact : ∀ t, σ.txns[tid]? = some t → t.status = Status.active) :
+    FinishedSame σ (σ.commitTxn tid).1 := by
+  unfold State.commitTxn
+  split
+  · exact FinishedSame.refl σ
+  · split
+    · exact finishedSame_setStatus σ tid .aborted σ.lastCommitted σ.clog hact
+    · exact finishedSame_setStatus σ tid .committed _ _ hact
+
+theorem sameStatus_write (σ : State) (tid : Nat) (es : List Effect) : SameStatus σ (σ.write D0 tid es) := by
+  rw [write_none]
+  intro u t ht
+  obtain ⟨t', h1, _, _, h2, _⟩ := modify_ws_get (tid := tid) (w := es.map Effect.rid) ht
+  exact ⟨t', h1, h2⟩
+
+theorem sameStatus_stmt (σ : State) (tid j : Nat) (st : Stmt) : SameStatus σ (σ.stmt D0 tid j st).1 := by
+  rw [stmt_none]
+  split
+  · exact SameStatus.refl σ
+  · exact sameStatus_write σ tid _
+
+theorem sameStatus_batch (tid : Nat) : ∀ (sts : List Stmt) (σ : State) (j : Nat), SameStatus σ (State.batch D0 σ tid j sts).1
+  | [], σ, j => SameStatus.refl σ
+  | st :: sts, σ, j => by
+    simp only [State.batch]
+    cases ho : (σ.stmt D0 tid j st).2.out with
+    | err e => dsimp only; exact sameStatus_stmt σ tid j st
+    | okN n => dsimp only; exact (sameStatus_stmt σ tid j st).trans (sameStatus_batch tid sts _ _)
+    | rows rs => dsimp only; exact (sameStatus_stmt σ tid j st).trans (sameStatus_batch tid sts _ _)
+
+theorem endSession_txns (σ : State) (s : String) : (σ.endSession s).txns = σ.txns := rfl
+
+/-- the new transaction of `beginTxn` is active, and still is after statements -/
+theorem new_txn_active (σ σ' : State) (hs : SameStatus (σ.beginTxn D0).1 σ') :
+    ∀ t, σ'.txns[σ.txns.length]? = some t → t.status = Status.active := by
+  intro t ht
+  have h0 : (σ.beginTxn D0).1.txns[σ.txns.length]? = some ⟨σ.freshSnap D0, .active, [], σ.clog.length⟩ := by
+    simp [State.beginTxn]
+  obtain ⟨t', h1, h2⟩ := hs _ _ h0
+  rw [ht] at h1; cases h1
+  exact h2
+
+/-- the transaction of a session is active -/
+theorem session_active {σ : State} {α : Spec.State} (h : Rel σ α) {s : String} {tid : Nat}
+    (hl : lookup s σ.sessions = some tid) : ∀ t, σ.txns[tid]? = some t → t.status = Status.active := by
+  obtain ⟨a, _, t0, ht0, hact, _⟩ := h.sess s tid hl
+  intro t ht
+  rw [ht0] at ht; cases ht; exact hact
+
+/-- **one operation**: a finished transaction keeps its status -/
+theorem stepCore_finished (σ : State) (α : Spec.State) (h : Rel σ α) (op : Op) : FinishedSame σ (stepCore D0 σ op).1 := by
+  cases op with
+  | begin s =>
+    simp only [stepCore]
+    cases hl : lookup s σ.sessions with
+    | none => exact (sameStatus_begin σ).finished
+    | some old =>
+      dsimp only
+      have h1 : FinishedSame σ ((σ.abortTxn old).endSession s) := finishedSame_abort σ old (session_active h hl)
+      exact h1.trans (sameStatus_begin _).finished
+  | commit s =>
+    simp only [stepCore]
+    cases hl : lookup s σ.sessions with
+    | none => exact FinishedSame.refl σ
+    | some tid => exact finishedSame_commit σ tid (session_active h hl)
+  | rollback s =>
+    simp only [stepCore]
+    cases hl : lookup s σ.sessions with
+    | none => exact FinishedSame.refl σ
+    | some tid => exact finishedSame_abort σ tid (session_active h hl)
+  | drop s =>
+    simp only [stepCore]
+    cases hl : lookup s σ.sessions with
+    | none => exact FinishedSame.refl σ
+    | some tid => exact finishedSame_abort σ tid (session_active h hl)
+  | exec s st =>
+    simp only [stepCore]
+    cases hl : lookup s σ.sessions with
+    | none => exact FinishedSame.refl σ
+    | some tid => exact (sameStatus_stmt σ tid 0 st).finished
+  | auto st =>
+    simp only [stepCore]
+    have hb := sameStatus_begin σ
+    have hs := sameStatus_stmt (σ.beginTxn D0).1 (σ.beginTxn D0).2 0 st
+    have hact := new_txn_active σ _ hs
+    have h12 : FinishedSame σ ((σ.beginTxn D0).1.stmt D0 (σ.beginTxn D0).2 0 st).1 := (hb.trans hs).finished
+    split
+    · exact h12.trans (finishedSame_abort _ _ hact)
+    · exact h12.trans (finishedSame_commit _ _ hact)
+  | batch sts =>
+    simp only [stepCore]
+    have hb := sameStatus_begin σ
+    have hs := sameStatus_batch (σ.beginTxn D0).2 sts (σ.beginTxn D0).1 0
+    have hact := new_txn_active σ _ hs
+    have h12 : FinishedSame σ (State.batch D0 (σ.beginTxn D0).1 (σ.beginTxn D0).2 0 sts).1 := (hb.trans hs).finished
+    rcases hbt : State.batch D0 (σ.beginTxn D0).1 (σ.beginTxn D0).2 0 sts with ⟨σ2, outs, r⟩
+    have hσ2 : (State.batch D0 (σ.beginTxn D0).1 (σ.beginTxn D0).2 0 sts).1 = σ2 := by rw [hbt]
+    rw [hσ2] at h12 hact
+    cases r with
+    | some e => exact h12.trans (finishedSame_abort _ _ hact)
+    | none => exact h12.trans (finishedSame_commit _ _ hact)
+  | tick =>
+    simp only [stepCore]
+    have hb := sameStatus_begin σ
+    have hact := new_txn_active σ _ (SameStatus.refl _)
+    exact hb.finished.trans (finishedSame_commit _ _ hact)
+  | nop => exact FinishedSame.refl σ
+
+theorem step_finished (σ : State) (α : Spec.State) (h : Rel σ α) (op : Op) : FinishedSame σ (step D0 σ op).1 :=
+  (stepCore_finished σ α h op).trans (FinishedSame.of_txns rfl)
+
+/-- VACUUM and reopen, after `abort_all`: every transaction keeps the status it has then -/
+theorem frame_finished_kill (σ : State) (clean : Snapshot → Nat → List Row → List Row) :
+    FinishedSame σ.killAll (σ.vacuumWith D0 false clean (fun _ txns => txns)) := by
+  have h2 : FinishedSame σ.killAll (σ.killAll.beginTxn D0).1 := (sameStatus_begin _).finished
+  generalize hσ3 : ({ (σ.killAll.beginTxn D0).1 with
+      rows := clean ((σ.killAll.beginTxn D0).1.snapOf (σ.killAll.beginTxn D0).2) σ.killAll.lastCommitted (σ.killAll.beginTxn D0).1.rows } : State) = σ3
+  have h3 : FinishedSame (σ.killAll.beginTxn D0).1 σ3 := by
+    apply FinishedSame.of_txns; rw [← hσ3]
+  have hact : ∀ t, σ3.txns[σ.killAll.txns.length]? = some t → t.status = Status.active := by
+    intro t ht
+    rw [← hσ3] at ht
+    exact new_txn_active σ.killAll _ (SameStatus.refl _) t ht
+  have h4 : FinishedSame σ3 (σ3.commitTxn σ.killAll.txns.length).1 := finishedSame_commit _ _ hact
+  have h5 : FinishedSame (σ3.commitTxn σ.killAll.txns.length).1
+      { (σ3.commitTxn σ.killAll.txns.length).1 with clock := (σ3.commitTxn σ.killAll.txns.length).1.clock + 1 } :=
+    FinishedSame.of_txns rfl
+  have hunf : σ.vacuumWith D0 false clean (fun _ txns => txns) =
+      { (σ3.commitTxn σ.killAll.txns.length).1 with clock := (σ3.commitTxn σ.killAll.txns.length).1.clock + 1 } := by
+    subst hσ3; rfl
+  rw [hunf]
+  exact ((h2.trans h3).trans h4).trans h5
+
+theorem finishedSame_killAll (σ : State) : FinishedSame σ σ.killAll := by
+  intro u t ht hna
+  refine ⟨killTxn t, getElem?_abortAll.2 ⟨t, ht, rfl⟩, ?_⟩
+  unfold killTxn; simp [hna]
+
+/-- VACUUM and reopen: the finished transactions keep their status (the active ones become aborted) -/
+theorem frame_finished (σ : State) (clean : Snapshot → Nat → List Row → List Row) :
+    FinishedSame σ (σ.vacuumWith D0 false clean (fun _ txns => txns)) :=
+  (finishedSame_killAll σ).trans (frame_finished_kill σ clean)
+
+theorem vstep_finished (τ : VState) (α : Spec.State) (h : VRel τ α) (o : VOp) : FinishedSame τ.db (vstep D0 V0 τ o).1.db := by
+  cases o with
+  | vacuum => exact frame_finished τ.db (vacuumRows V0)
+  | reopen => exact frame_finished τ.db (fun _ _ rows => rows)
+  | op o =>
+    have hk := h.2
+    have e : (vstep D0 V0 τ (.op o)).1.db = (step D0 τ.db o).1 := by
+      cases o <;> simp [vstep, hk]
+    rw [e]; exact step_finished τ.db α h.1 o
+
+theorem vfinal_finished : ∀ (ops : List VOp) (τ : VState) (α : Spec.State), VRel τ α →
+    FinishedSame τ.db (vfinal D0 V0 τ ops).db
+  | [], τ, _, _ => FinishedSame.refl _
+  | o :: os, τ, α, h => by
+    have h1 := vstep_finished τ α h o
+    have hr := (vstep_ok τ α h o).2
+    exact h1.trans (vfinal_finished os _ _ hr)
+
+theorem vfinal_append (D : Defects) (V : VDefects) : ∀ (a b : List VOp) (τ : VState),
+    vfinal D V τ (a ++ b) = vfinal D V (vfinal D V τ a) b
+  | [], _, _ => rfl
+  | o :: os, b, τ => by simp [vfinal, vfinal_append D V os b]
+
+theorem vrunFrom_append (D : Defects) (V : VDefects) : ∀ (a b : List VOp) (τ : VState),
+    vrunFrom D V τ (a ++ b) = vrunFrom D V τ a ++ vrunFrom D V (vfinal D V τ a) b
+  | [], _, _ => rfl
+  | o :: os, b, τ => by simp [vrunFrom, vfinal, vrunFrom_append D V os b]
+
+/-- the snapshot of the vacuum transaction when VACUUM runs in state `σ` -/
+def vacSnap (σ : State) : Snapshot := σ.killAll.freshSnap D0
+
+/-- **Admissible snapshots.**  `σ` reachable, VACUUM runs, then any further history `later` (more VACUUMs, reopens, sessions,
+    statements): the snapshot of a transaction beginning at that point sees, among the transactions that existed when the
+    VACUUM ran, exactly those the vacuum snapshot counts as committed; and for the vacuum snapshot every other one of them
+    is in its aborted set. -/
+theorem later_snapshot_admissible (τ : VState) (α : Spec.State) (h : VRel τ α) (later : List VOp) (u : Nat)
+    (hu : u < τ.db.txns.length) :
+    ((vfinal D0 V0 τ (VOp.vacuum :: later)).db.freshSnap D0).sees u = (vacSnap τ.db).cb u ∧
+    (vacSnap τ.db).aborted.contains u = !(vacSnap τ.db).cb u := by
+  have c1 : Core τ.db.killAll α 0 := Core.killAll τ.db α 0 h.1.core
+  have hu1 : u < τ.db.killAll.txns.length := by rw [killAll_length]; exact hu
+  obtain ⟨q1, q2, _⟩ := quiet_snapshot τ.db.killAll c1.cinv (killAll_no_active τ.db) u hu1
+  refine ⟨?_, q2⟩
+  -- the state after the vacuum and after `later`
+  have hv := vstep_ok τ α h .vacuum
+  have hL := (vrunFrom_ok later _ _ hv.2).2
+  have hfin : FinishedSame τ.db.killAll (vfinal D0 V0 τ (VOp.vacuum :: later)).db := by
+    have a1 : FinishedSame τ.db.killAll (vstep D0 V0 τ .vacuum).1.db := frame_finished_kill τ.db (vacuumRows V0)
+    exact a1.trans (vfinal_finished later _ _ hv.2)
+  have hget : τ.db.killAll.txns[u]? = some τ.db.killAll.txns[u] := List.getElem?_eq_getElem hu1
+  obtain ⟨t', g1, g2⟩ := hfin u _ hget (killAll_no_active τ.db u _ hget)
+  have hultL : u < (vfinal D0 V0 τ (VOp.vacuum :: later)).db.txns.length := getElem?_lt g1
+  apply bool_eq_of_iff
+  have hLr : VRel (vfinal D0 V0 τ (VOp.vacuum :: later)) (Spec.vfinal α (VOp.vacuum :: later)) := hL
+  rw [fresh_sees _ hLr.1.core.cinv u hultL]
+  show _ ↔ (τ.db.killAll.freshSnap D0).cb u = true
+  rw [q1]
+  constructor
+  · rintro ⟨t, ht, hs⟩
+    rw [g1] at ht; cases ht
+    exact ⟨_, hget, by rw [← g2]; exact hs⟩
+  · rintro ⟨t, ht, hs⟩
+    rw [hget] at ht; cases ht
+    exact ⟨t', g1, by rw [g2]; exact hs⟩
+
+/-- the version a snapshot selects is the head of what VACUUM keeps -/
+theorem Row.vacuum_keeps_selected (s S : Snapshot) (h : Nat) (r r' : Row)
+    (hS : ∀ u ∈ r.owners, S.sees u = s.cb u)
+    (hab : ∀ u ∈ r.owners, s.aborted.contains u = !s.cb u)
+    (hv : r.vacuum V0 s h = some r') (v : Version) (hsel : r.versions.find? (fun v => S.sees v.creator) = some v) :
+    r'.versions.head? = some v := by
+  obtain ⟨_, _, _, _, hvers, _, _, _⟩ := Row.vacuum_some hv
+  rw [hvers, trimChain_head, liveVersions_none]
+  have hver : ∀ v ∈ r.versions, v.creator ∈ r.owners := fun v hv => by
+    simp only [Row.owners, List.mem_append, List.mem_map]; exact Or.inl ⟨v, hv, rfl⟩
+  have hfil : r.versions.filter (fun v => !s.aborted.contains v.creator) = r.versions.filter (fun v => S.sees v.creator) := by
+    apply List.filter_congr
+    intro v hv
+    rw [hab _ (hver v hv), hS _ (hver v hv)]; simp
+  rw [hfil, List.head?_filter, hsel]
+
+/-! ### what VACUUM leaves behind -/
+
+theorem commitTxn_rows (σ : State) (tid : Nat) : (σ.commitTxn tid).1.rows = σ.rows := by
+  unfold State.commitTxn
+  split
+  · rfl
+  · split <;> rfl
+
+theorem snapOf_begin (σ1 : State) : (σ1.beginTxn D0).1.snapOf σ1.txns.length = σ1.freshSnap D0 := by
+  simp [State.snapOf, State.beginTxn]
+
+theorem frame_rows (σ : State) (clean : Snapshot → Nat → List Row → List Row) :
+    (σ.vacuumWith D0 false clean (fun _ txns => txns)).rows = clean (vacSnap σ) σ.lastCommitted σ.rows := by
+  simp only [State.vacuumWith]
+  rw [commitTxn_rows]
+  show clean ((σ.killAll.beginTxn D0).1.snapOf σ.killAll.txns.length) σ.lastCommitted σ.rows = _
+  rw [snapOf_begin]; rfl
+
+theorem vacuum_rows (σ : State) :
+    (σ.vacuum D0 V0).rows = vacuumRows V0 (vacSnap σ) σ.lastCommitted σ.rows := frame_rows σ (vacuumRows V0)
+
+theorem overlaps_nil (a : List Rid) : overlaps a [] = false := by
+  unfold overlaps; simp
+
+theorem frame_coordinator (σ : State) (hc : CInv σ) (clean : Snapshot → Nat → List Row → List Row) :
+    (σ.vacuumWith D0 false clean (fun _ txns => txns)).lastCommitted = σ.txns.length ∧
+    (σ.vacuumWith D0 false clean (fun _ txns => txns)).txns.length = σ.txns.length + 1 := by
+  simp only [State.vacuumWith]
+  generalize hσ3 : ({ (σ.killAll.beginTxn D0).1 with
+      rows := clean ((σ.killAll.beginTxn D0).1.snapOf (σ.killAll.beginTxn D0).2) σ.killAll.lastCommitted (σ.killAll.beginTxn D0).1.rows } : State) = σ3
+  have hget : σ3.txns[σ.killAll.txns.length]? = some ⟨σ.killAll.freshSnap D0, .active, [], σ.killAll.clog.length⟩ := by
+    rw [← hσ3]; simp [State.beginTxn]
+  have hlen3 : σ3.txns.length = σ.txns.length + 1 := by
+    rw [← hσ3]; simp [State.beginTxn, killAll_length]
+  have hlc3 : σ3.lastCommitted = σ.lastCommitted := by rw [← hσ3]; rfl
+  have hnc : conflictIn σ3.clog ⟨σ.killAll.freshSnap D0, .active, [], σ.killAll.clog.length⟩ = false := by
+    unfold conflictIn; simp [overlaps_nil]
+  have hgoal : ((σ3.commitTxn σ.killAll.txns.length).1.lastCommitted = σ.txns.length) ∧
+      (σ3.commitTxn σ.killAll.txns.length).1.txns.length = σ.txns.length + 1 := by
+    rw [commitTxn_eq σ3 _ _ hget, hnc]
+    simp only [Bool.false_eq_true, if_false, setStatus, List.length_modify, hlen3, hlc3, killAll_length]
+    refine ⟨?_, trivial⟩
+    rcases hc.lc_bound with h0 | h0 <;> split <;> omega
+  subst hσ3
+  exact hgoal
+
+theorem mem_takeWhile_pred {p : α → Bool} : ∀ {l : List α} {x : α}, x ∈ l.takeWhile p → p x = true
+  | [], _, h => by simp at h
+  | y :: ys, x, h => by
+    simp only [List.takeWhile_cons] at h
+    split at h
+    · rcases List.mem_cons.1 h with e | h'
+      · subst e; assumption
+      · exact mem_takeWhile_pred h'
+    · simp at h
+
+theorem filter_tail_subset {p : α → Bool} : ∀ (l : List α), ∀ x ∈ (l.filter p).tail, x ∈ l.tail
+  | [], x, h => by simp at h
+  | y :: ys, x, h => by
+    simp only [List.filter_cons] at h
+    split at h
+    · simp only [List.tail_cons] at h ⊢
+      exact (List.mem_filter.1 h).1
+    · simp only [List.tail_cons]
+      exact List.mem_of_mem_tail (filter_tail_subset ys x h) |> fun h' => h'
+
+/-- **Shape of a vacuumed row.**  `σ` reachable (related to an abstract state).  Every row that survives VACUUM has no delete
+    mark left, at least one version, only versions of committed transactions, and below the head only versions stamped by the
+    horizon transaction itself (everything older is gone), which moreover were below the head before. -/
+theorem vacuum_row_shape (σ : State) (α : Spec.State) (h : Rel σ α) (r r' : Row) (hr : r ∈ σ.rows)
+    (hv : r.vacuum V0 (vacSnap σ) σ.lastCommitted = some r') :
+    r'.deleters = [] ∧ r'.versions ≠ [] ∧ (∀ w ∈ r'.versions, σ.isCommitted w.creator) ∧
+    (∀ w ∈ r'.versions.tail, w.creator = σ.lastCommitted ∧ w ∈ r.versions.tail) := by
+  have c1 : Core σ.killAll α 0 := Core.killAll σ α 0 h.core
+  have hq : ∀ u ∈ r.owners, ((vacSnap σ).cb u = true ↔ σ.isCommitted u) ∧ (vacSnap σ).aborted.contains u = !(vacSnap σ).cb u := by
+    intro u hu
+    have hult : u < σ.killAll.txns.length := by rw [killAll_length]; exact owners_lt σ 0 h.core.sinv r hr u hu
+    obtain ⟨q1, q2, _⟩ := quiet_snapshot σ.killAll c1.cinv (killAll_no_active σ) u hult
+    exact ⟨q1.trans (killAll_committed σ u), q2⟩
+  have hver : ∀ v ∈ r.versions, v.creator ∈ r.owners := fun v hv => by
+    simp only [Row.owners, List.mem_append, List.mem_map]; exact Or.inl ⟨v, hv, rfl⟩
+  have hdel : ∀ d ∈ r.deleters, d ∈ r.owners := fun d hd => by
+    simp only [Row.owners, List.mem_append]; exact Or.inr hd
+  obtain ⟨_, _, _, _, hvers, hdels, hne, hnd⟩ := Row.vacuum_some hv
+  rw [liveVersions_none] at hvers hne
+  rw [deletedForVacuum_none] at hnd
+  have hlive : ∀ w ∈ r.versions.filter (fun v => !(vacSnap σ).aborted.contains v.creator), σ.isCommitted w.creator := by
+    intro w hw
+    obtain ⟨hw1, hw2⟩ := List.mem_filter.1 hw
+    obtain ⟨q1, q2⟩ := hq _ (hver w hw1)
+    rw [q2] at hw2
+    exact q1.1 (by simpa using hw2)
+  refine ⟨?_, ?_, ?_, ?_⟩
+  · rw [hdels]
+    apply List.filter_eq_nil_iff.2
+    intro d hd hnab
+    obtain ⟨q1, q2⟩ := hq _ (hdel d hd)
+    rw [q2] at hnab
+    have hcb : (vacSnap σ).cb d = true := by simpa using hnab
+    have : r.deleters.any (vacSnap σ).cb = true := List.any_eq_true.2 ⟨d, hd, hcb⟩
+    rw [hnd] at this; cases this
+  · rw [hvers]
+    cases hl : r.versions.filter (fun v => !(vacSnap σ).aborted.contains v.creator) with
+    | nil => rw [hl] at hne; simp at hne
+    | cons x tl => simp [trimChain]
+  · intro w hw
+    rw [hvers] at hw
+    exact hlive w (trimChain_subset _ _ w hw)
+  · intro w hw
+    rw [hvers] at hw
+    cases hl : r.versions.filter (fun v => !(vacSnap σ).aborted.contains v.creator) with
+    | nil => rw [hl] at hw; simp [trimChain] at hw
+    | cons x tl =>
+      rw [hl] at hw
+      simp only [trimChain, List.tail_cons] at hw
+      have hge := mem_takeWhile_pred hw
+      have hmem : w ∈ tl := List.takeWhile_subset _ hw
+      have hwl : w ∈ r.versions.filter (fun v => !(vacSnap σ).aborted.contains v.creator) := by
+        rw [hl]; exact List.mem_cons_of_mem _ hmem
+      obtain ⟨t, ht, hst⟩ := hlive w hwl
+      have hle := h.core.cinv.lc_max _ t ht hst
+      refine ⟨by simp at hge; omega, ?_⟩
+      apply filter_tail_subset r.versions w
+      rw [hl]; exact hmem
+
+theorem sizeRows_eq_length (rows : List Row) (h : ∀ r ∈ rows, r.size = 1) : sizeRows rows = rows.length := by
+  induction rows with
+  | nil => rfl
+  | cons r rs ih =>
+    simp only [sizeRows, List.length_cons]
+    rw [h r (List.mem_cons_self ..), ih (fun x hx => h x (List.mem_cons_of_mem _ hx))]
+    omega
+
+/-- **No chain survives.**  If below the head no row carries a version of the horizon transaction, VACUUM leaves exactly one
+    version per row and no delete mark: `size = number of rows`. -/
+theorem size_vacuum_eq_rows (σ : State) (α : Spec.State) (h : Rel σ α)
+    (htail : ∀ r ∈ σ.rows, ∀ w ∈ r.versions.tail, w.creator ≠ σ.lastCommitted) :
+    (σ.vacuum D0 V0).size = (σ.vacuum D0 V0).rows.length := by
+  unfold State.size
+  apply sizeRows_eq_length
+  intro r' hr'
+  rw [vacuum_rows] at hr'
+  obtain ⟨r, hr, hv⟩ := mem_vacuumRows.1 hr'
+  obtain ⟨h1, h2, _, h4⟩ := vacuum_row_shape σ α h r r' hr hv
+  have htl : r'.versions.tail = [] := by
+    cases htl : r'.versions.tail with
+    | nil => rfl
+    | cons w ws =>
+      have hw : w ∈ r'.versions.tail := by rw [htl]; exact List.mem_cons_self ..
+      obtain ⟨e1, e2⟩ := h4 w hw
+      exact ((htail r hr w e2) e1).elim
+  unfold Row.size
+  rw [h1]
+  cases hvs : r'.versions with
+  | nil => exact (h2 hvs).elim
+  | cons x tl =>
+    rw [hvs] at htl
+    simp only [List.tail_cons] at htl
+    simp [htl]
+
+/-- after a VACUUM no row carries a stamp of the new horizon (the vacuum transaction wrote nothing) -/
+theorem vacuum_no_stamp_at_horizon (σ : State) (α : Spec.State) (h : Rel σ α) :
+    ∀ r' ∈ (σ.vacuum D0 V0).rows, ∀ u ∈ r'.owners, u < (σ.vacuum D0 V0).lastCommitted := by
+  intro r' hr' u hu
+  rw [vacuum_eq_frame, (frame_coordinator σ h.core.cinv _).1]
+  rw [vacuum_rows] at hr'
+  obtain ⟨r, hr, hv⟩ := mem_vacuumRows.1 hr'
+  exact owners_lt σ 0 h.core.sinv r hr u (Row.vacuum_owners hv u hu)
+
+/-- a second VACUUM drops no row -/
+theorem vacuum_twice_rows_length (σ : State) (α : Spec.State) (h : Rel σ α) :
+    ((σ.vacuum D0 V0).vacuum D0 V0).rows.length = (σ.vacuum D0 V0).rows.length := by
+  have hr1 := vacuum_rel σ α h
+  rw [vacuum_rows (σ.vacuum D0 V0)]
+  unfold vacuumRows
+  have hall : ∀ r ∈ (σ.vacuum D0 V0).rows, ∃ r', r.vacuum V0 (vacSnap (σ.vacuum D0 V0)) (σ.vacuum D0 V0).lastCommitted = some r' := by
+    intro r1 hr1m
+    rw [vacuum_rows] at hr1m
+    obtain ⟨r, hr, hv⟩ := mem_vacuumRows.1 hr1m
+    obtain ⟨s1, s2, s3, _⟩ := vacuum_row_shape σ α h r r1 hr hv
+    have hr1m' : r1 ∈ (σ.vacuum D0 V0).rows := by rw [vacuum_rows]; exact mem_vacuumRows.2 ⟨r, hr, hv⟩
+    -- every stamp of r1 is committed, also in the vacuumed state
+    have c1 : Core (σ.vacuum D0 V0).killAll α.quiesce 0 := Core.killAll _ _ 0 hr1.core
+    have hq : ∀ u ∈ r1.owners, (vacSnap (σ.vacuum D0 V0)).aborted.contains u = false := by
+      intro u hu
+      have hult : u < (σ.vacuum D0 V0).killAll.txns.length := by
+        rw [killAll_length]; exact owners_lt _ 0 hr1.core.sinv r1 hr1m' u hu
+      obtain ⟨q1, q2, _⟩ := quiet_snapshot _ c1.cinv (killAll_no_active _) u hult
+      have hu' : u ∈ r1.versions.map (·.creator) := by
+        simp only [Row.owners, s1, List.append_nil] at hu; exact hu
+      obtain ⟨w, hw, rfl⟩ := List.mem_map.1 hu'
+      obtain ⟨t, ht, hst⟩ := s3 w hw
+      -- committed in σ, hence in the vacuumed state
+      obtain ⟨t', g1, g2⟩ := frame_finished σ (vacuumRows V0) _ t ht (by rw [hst]; simp)
+      have hcomm : (σ.vacuum D0 V0).isCommitted w.creator := ⟨t', g1, by rw [g2, hst]⟩
+      have hcb : (vacSnap (σ.vacuum D0 V0)).cb w.creator = true := q1.2 ((killAll_committed _ _).2 hcomm)
+      show (vacSnap (σ.vacuum D0 V0)).aborted.contains w.creator = false
+      rw [show (vacSnap (σ.vacuum D0 V0)) = (σ.vacuum D0 V0).killAll.freshSnap D0 from rfl, q2]
+      rw [show (σ.vacuum D0 V0).killAll.freshSnap D0 = vacSnap (σ.vacuum D0 V0) from rfl, hcb]; rfl
+    have hfil : r1.versions.filter (fun v => !(vacSnap (σ.vacuum D0 V0)).aborted.contains v.creator) = r1.versions := by
+      apply List.filter_eq_self.2
+      intro v hv'
+      rw [hq v.creator (by simp only [Row.owners, List.mem_append, List.mem_map]; exact Or.inl ⟨v, hv', rfl⟩)]; rfl
+    rw [Row.vacuum_none, hfil, s1]
+    cases hvs : r1.versions with
+    | nil => exact (s2 hvs).elim
+    | cons x tl => simp
+  -- a filterMap that never drops keeps the length
+  have key : ∀ (l : List Row), (∀ r ∈ l, ∃ r', r.vacuum V0 (vacSnap (σ.vacuum D0 V0)) (σ.vacuum D0 V0).lastCommitted = some r') →
+      (l.filterMap (Row.vacuum V0 (vacSnap (σ.vacuum D0 V0)) (σ.vacuum D0 V0).lastCommitted)).length = l.length := by
+    intro l
+    induction l with
+    | nil => intro _; rfl
+    | cons x xs ih =>
+      intro hx
+      obtain ⟨x', hx'⟩ := hx x (List.mem_cons_self ..)
+      simp only [List.filterMap_cons, hx', List.length_cons]
+      rw [ih (fun r hr => hx r (List.mem_cons_of_mem _ hr))]
+  exact key _ hall
+
 end AxVerif.Db
